@@ -117,17 +117,43 @@ impl Prop for C16 {
     ];
 
     fn legs(tier: Tier) -> Vec<Leg> {
-        vec![Leg {
-            name: "random",
-            kind: LegKind::Random {
-                cases: tier.pick(30000, 150000),
+        vec![
+            Leg {
+                name: "random",
+                kind: LegKind::Random {
+                    cases: tier.pick(30000, 150000),
+                },
+                workers: 16,
+                build: Build::Normal,
             },
-            workers: 16,
-            build: Build::Normal,
-        }]
+            Leg {
+                name: "huge",
+                kind: LegKind::Random {
+                    cases: tier.pick(3, 30),
+                },
+                workers: 16,
+                build: Build::Normal,
+            },
+        ]
     }
 
-    fn strategy(_leg: &str, tier: Tier) -> BoxedStrategy<Case> {
+    fn strategy(leg: &str, tier: Tier) -> BoxedStrategy<Case> {
+        if leg == "huge" {
+            return (gen::huge_dg(), vec(0..4_u8, 2..=3))
+                .prop_map(|((g, _), chain)| {
+                    let mut rows: Vec<Vec<usize>> = vec![vec![]; g.order];
+                    for &(u, v) in &g.arcs {
+                        rows[u].push(v);
+                    }
+                    let mut arcs = g.arcs.clone();
+                    arcs.reverse();
+                    if arcs.is_empty() {
+                        arcs.push((0, 1));
+                    }
+                    Case { g, chain, rows, arcs }
+                })
+                .boxed();
+        }
         (
             gen::digraph_labeled_big(tier.pick(40, 70)).prop_map(|(g, _)| g),
             vec(0..4_u8, 2..=5),
